@@ -209,6 +209,10 @@ func genDisk(variant string, seed uint64, tier string) *Plan {
 		p.Sched.StallNth = r.Range(1, 3)
 		p.Sched.StallLen = r.Range(300, 3000)
 	}
+	// drawn last (the rest of the plan is what it was before this knob existed)
+	if (variant == "backup" || variant == "backup_race") && r.Bool(0.3) {
+		k["reuse_dir"] = 1 // the backup directory already holds a backup of an older snapshot
+	}
 	return p
 }
 
@@ -221,6 +225,7 @@ type diskRun struct {
 	content [][]byte
 	keys    []int
 	err     error
+	reused  bool // the directory held an earlier backup when the store began
 	// set by the damage enumeration when the damaged shard files still have the
 	// checksums recorded in the manifest although their content differs
 	collision string
@@ -302,6 +307,24 @@ func runDisk(env *Env) {
 		dr.stored = rec
 		dr.content = rec.ms.content
 		dr.keys = rec.ms.keys
+		if plan.Knob("reuse_dir", 0) == 1 {
+			// the directory already holds a complete backup of another (older) snapshot
+			if first := ne.pickOpen(0); first != nil && first != rec && ne.acquire(first) {
+				s.BeginOp()
+				perr := ne.db.StoreToDisk(dr.dir, first.snap, 1, nil)
+				s.EndOp()
+				first.refs--
+				if first.refs == 0 {
+					first.ms.closed = true
+				}
+				env.Logf("earlier StoreToDisk of snapshot %d into the same directory -> %v", first.idx, perr)
+				if perr != nil {
+					env.Violate("C05", "store-failed-without-fault", "StoreToDisk (earlier backup into the same directory) returned %v although no I/O fault was injected", perr)
+				}
+				dr.reused = true
+				env.Probe("backup_dir_reused")
+			}
+		}
 		if ds != nil && variant == "wfault" {
 			// the fault point is chosen by the root per iteration; first run is fault free (measure)
 		}
@@ -457,7 +480,7 @@ func (dr *diskRun) checkBackup() {
 		return
 	}
 	// C19 through files: independent parser, framing, terminator, checksums
-	data, delta, problems := backupContent(dr.dir)
+	data, delta, problems := backupContent(dr.dir, dr.reused)
 	for _, p := range problems {
 		env.Violate("C19", "backup-file-format", "independent reader of %s: %s", dr.dir, p)
 	}
